@@ -104,8 +104,9 @@ def run(ctx):
         if rep["kind"] != "ok":
             # group by the pair of variable kinds that clash
             cl = rep.get("clashes") or []
+            nm = {"b": "quantified", "ex": "existential"}
             sig = "unreadable" if rep["kind"] != "names-clash" else sorted(
-                {"+".join(sorted([c[0][0][0], c[1][0][0]])) + ("=same-name" if c[0][1] == c[1][1] else "=two-names")
+                {"/".join(sorted([nm[c[0][0][0]], nm[c[1][0][0]]])) + (":one-name" if c[0][1] == c[1][1] else ":two-names")
                  for c in cl})[0]
             kinds.setdefault(f"{rep['kind']}:{sig}", []).append(
                 {"type": o["t"], "printed": o["text"], "names": rep.get("names"), "clashes": cl[:4]})
